@@ -701,7 +701,15 @@ static void integer_ops(const Polyhedron& A, int n, const Sys& SA, const std::st
   std::vector<Vec> pts;
   bool enumerated = int_points(n, SA, pts, 3000);
   Holder T(cp(A)); Polyhedron& Tm = *T;
-  if (coin(40)) {
+  if (coin(45)) {
+    tr(pre + ".contains_integer_point()"); hx::count("q.contains_integer_point");
+    bool c = A.contains_integer_point();
+    if (!enumerated) { if (!ref::feasible(n, SA)) { checked(); if (c) violation("C17.contains_integer_point", "true on an empty polyhedron"); } else hx::inconclusive("int_window"); return; }
+    checked(); if (c != !pts.empty()) violation("C17.contains_integer_point", c ? "PPL true but no integer point exists" : "PPL false but " + show(pts[0]) + " is an integer point");
+    hx::distinct("cip|" + status_line(A) + "|" + (pts.empty() ? "none" : "some"));
+    return;
+  }
+  {
     Variables_Set vs; bool all = coin(); if (!all) { for (int i = 0; i < n; ++i) if (coin()) vs.insert(Variable(i)); }
     Complexity_Class cc = (Complexity_Class) rnd(0, 2);
     tr(pre + ".tmp.drop_some_non_integer_points(" + (all ? std::string("all") : str(vs)) + ")"); hx::count("op.drop_some_non_integer_points");
@@ -759,7 +767,7 @@ static void run_case(uint64_t) {
       if (profile == "dd") { w_mut = 35; w_query = 30; w_obs = 10; w_twin = 10; w_ascii = 3; w_dims = 6; w_copy = 6; }
       else if (profile == "alias") { w_mut = 50; w_copy = 25; w_query = 8; w_obs = 5; w_twin = 2; w_ascii = 4; w_dims = 6; }
       else if (profile == "ascii") { w_mut = 50; w_ascii = 25; w_query = 8; w_obs = 7; w_copy = 5; w_twin = 1; w_dims = 4; }
-      else if (profile == "wrap") { w_mut = 35; w_query = 10; w_dims = 0; w_twin = 0; }
+      else if (profile == "wrap") { w_mut = 30; w_query = 0; w_copy = 3; w_obs = 3; w_twin = 0; w_ascii = 0; w_dims = 0; }
       if (kind < w_mut) {
         Op op; int tries = 0; while (!make_op(op, n, cls == "empty", profile) && ++tries < 20) op = Op();
         if (tries >= 20) continue;
@@ -822,7 +830,7 @@ static void run_case(uint64_t) {
       else if ((kind -= w_obs) < w_twin) { receiver = -1; twin_check(A, n, SA, GA, pre.str()); hx::distinct("twin|" + stl + "|" + cls); }
       else if ((kind -= w_twin) < w_ascii) { receiver = -1; Polyhedron* L = ascii_roundtrip(A, n, pre.str()); if (L) { del(twin[ai]); twin[ai] = L; } }
       else if ((kind -= w_ascii) < w_dims) { receiver = -1; dims_op(A, B, n, SA, GA, SB, pre.str()); hx::distinct("dims|" + stl + "|" + cls); }
-      else { receiver = -1; integer_ops(A, n, SA, pre.str()); }
+      else { receiver = -1; integer_ops(A, n, SA, pre.str()); hx::distinct("intops|" + stl + "|" + cls); }
     } catch (const Logical_Timeout&) {
       std::string t = hx::trace(); size_t p = t.rfind(" | #"); std::string last = p == std::string::npos ? t : t.substr(p + 3); size_t a = last.find('.'), b = last.find('(');
       std::string opn = (a != std::string::npos && b != std::string::npos && b > a) ? last.substr(a + 1, b - a - 1) : last;
